@@ -1,6 +1,8 @@
 import GoatProofs.Lemmas.C11MsgCrit
 import GoatProofs.Lemmas.C11Round
 import GoatProofs.Lemmas.C11Pos
+import GoatProofs.Lemmas.C11CritIff
+import GoatProofs.Lemmas.C11PosJwe
 /-
 C11 — JOSE header parameters keep their names and values; unknown crit is refused.
 Property theorems.  Model: Goat/Model/Header.lean, Goat/Model/HeaderMsg.lean (interpreters of the
@@ -88,6 +90,68 @@ theorem unknown_crit_rejected_jwe (o : Oracle) :
     obtain ⟨⟨p, hp, hc⟩, hu, hr⟩ := jweParseJSON_crit o data m hm
     exact ⟨⟨p, hp, (critOK_iff _ _).1 hc⟩, hu, hr⟩
 
+/-! ## the crit acceptance rule as an equivalence -/
+
+theorem jws_split : jws.decSteps = jws.decSteps.take 10 ++ (critRow Gen.Consts.jwa.CriticalKey "" ::
+    ((jws.decSteps.drop 11).take 1 ++ (DecStep.critCheck "crit" jws.knownParams :: jws.decSteps.drop 13))) := by decide
+theorem jwe_split : jwe.decSteps = jwe.decSteps.take 12 ++ (critRow Gen.Consts.jwa.CriticalKey "" ::
+    ([] ++ (DecStep.critCheck "crit" jwe.knownParams :: jwe.decSteps.drop 14))) := by decide
+
+/-- **Which crit values goat accepts — exactly.**  For every oracle and every header object:
+    `decodeHeader obj` succeeds iff `decodeHeader` succeeds on `obj` without its `crit` member AND the
+    `crit` member is absent or is an array whose entries are all strings and all on `knownParams`
+    (`critMember known (obj["crit"]) = some c`); the decoded headers then agree in every field
+    except `crit = c` (and `Raw`).  In particular, as the model of the code stands: the empty array
+    and repeated names ARE accepted, a listed name need not be present as a member, and (jws) the
+    rule is the same for the protected and the unprotected header; a non-array value, a non-string
+    entry or one name outside `knownParams` refuses the header. -/
+theorem crit_acceptance_iff (o : Oracle) (obj : List (String × Wire)) (h : Header) :
+    ((jwsDecodeHeader obj).run o = .ok h ↔
+      ∃ h' c, (jwsDecodeHeader (dropMember "crit" obj)).run o = .ok h' ∧
+        critMember jws.knownParams (Wire.lookup "crit" obj) = some c ∧ h = { h' with crit := c, raw := obj }) ∧
+    ((jweDecodeHeader obj).run o = .ok h ↔
+      ∃ h' c, (jweDecodeHeader (dropMember "crit" obj)).run o = .ok h' ∧
+        critMember jwe.knownParams (Wire.lookup "crit" obj) = some c ∧ h = { h' with crit := c, raw := obj }) := by
+  constructor
+  · have := decodeWith_crit_iff o Gen.Consts.jwa.CriticalKey "" jws.knownParams (jws.decSteps.take 10)
+      ((jws.decSteps.drop 11).take 1) (jws.decSteps.drop 13) (by decide) (by decide) (by decide) obj h
+    rw [← jws_split] at this
+    exact this
+  · have := decodeWith_crit_iff o Gen.Consts.jwa.CriticalKey "" jwe.knownParams (jwe.decSteps.take 12)
+      [] (jwe.decSteps.drop 14) (by decide) (by decide) (by decide) obj h
+    rw [← jwe_split] at this
+    exact this
+
+/-- `critMember`: the acceptable values, spelled out -/
+theorem critMember_some (known : List String) (v : Option Wire) (c : List String) :
+    critMember known v = some c ↔
+      (v = none ∧ c = []) ∨ (∃ l, v = some (.arr l) ∧ strList l = some c ∧ ∀ n ∈ c, n ∈ known) := by
+  cases v with
+  | none => simp [critMember, eq_comm]
+  | some w =>
+    cases w <;> simp [critMember]
+    rename_i l
+    cases hs : strList l with
+    | none => simp
+    | some ss =>
+      simp only [Option.some.injEq]
+      constructor
+      · intro h
+        split at h
+        · rename_i hk; cases h; exact ⟨rfl, (critOK_iff _ _).1 hk⟩
+        · cases h
+      · rintro ⟨e, hk⟩
+        subst e
+        simp [(critOK_iff _ _).2 hk]
+
+/-- the rule is weaker than what RFC 7515 §4.1.11 demands of producers (recipients MAY refuse these) -/
+example : critMember jws.knownParams (some (.arr [])) = some [] := rfl                         -- empty list accepted
+example : critMember jws.knownParams (some (.arr [.str "b64", .str "b64"])) = some ["b64", "b64"] := rfl  -- duplicates accepted
+example (o : Oracle) : ∃ h, (jwsDecodeHeader [("crit", .arr [.str "b64"])]).run o = .ok h := ⟨_, rfl⟩  -- named member absent
+example : critMember jws.knownParams (some (.arr [.str "b64", .str "exp"])) = none := rfl
+example : critMember jws.knownParams (some (.arr [.num "1"])) = none := rfl
+example : critMember jws.knownParams (some (.str "b64")) = none := rfl
+
 theorem sharesName_false (a b : List (String × Wire)) :
     sharesName a b = false ↔ ∀ kv ∈ a, Wire.lookup kv.1 b = none := by
   simp only [sharesName, List.any_eq_false, Option.isSome_iff_ne_none, ne_eq, Decidable.not_not]
@@ -168,20 +232,65 @@ theorem header_names_registered (o : Oracle) (h : Header) :
 
 /-! ## header placement -/
 
-/-- FULL STATEMENT (header_position_roundtrip), kept: for JWS flattened / general JSON and JWE
-    JSON, a message built with protected, unprotected and per-signature / per-recipient headers
-    h_i (all well-formed) re-parses — `jwsParseJSON (json.marshal (jwsMarshalJSON m))`,
-    `jweParseJSON (json.marshal (jweMarshalJSON m))` — to a message whose headers, position by
-    position, are `{ fill o h_i with raw := emitted object of h_i }`; compact: the protected
-    position only.  A standards-conformant message carries each Header Parameter name in one
-    position only; jwe.ParseJSON now enforces this (`jwe_duplicate_names_rejected`), so the full
-    statement quantifies over headers with pairwise disjoint member names.  PROVED below: the protected position (the header text
-    base64url(JSON(encodeHeader h)) that every serialisation carries reads back as the header) for
-    both packages, and the complete JWS compact cycle Sign → Compact → ParseCompact.  The JSON
-    placements of the unprotected / per-signature / per-recipient headers are covered by the
-    correspondence run only (model = code on every generated message, and the model's per-header
-    step is `header_roundtrip_*`). -/
-theorem header_position_roundtrip_partial (o : Oracle) :
+/-- Header placement, every position, JSON serialisations.
+
+    JWS (flattened when there is one signature, general otherwise): for a message `m` as a sequence
+    of `Sign` calls leaves it (`MsgWF`: every signature has a protected header p with
+    `rawProtected = base64url(JSON(encodeHeader p))`, p.b64 agrees with the message, every protected
+    and every per-signature unprotected header is well-formed (`WF`), the JSON / base64url oracle
+    laws `TextLaw` hold for the emitted protected objects, signatures are base64url text),
+    `MarshalJSON` yields an object, and `Parse` of any bytes that `json.decodeMap` reads as that
+    object returns `m` with every header replaced by `rtHdr h` = `{ fill o h with raw := emitted object }`
+    — position by position, signature by signature: protected stays protected, unprotected stays
+    unprotected, an absent unprotected header stays absent.
+
+    JWE (general JSON syntax): for `m` as NewMessage/Encrypt leave it (`JweWF`: protected header
+    text as above, all headers `WF`, crit only in the protected header, the member names of the
+    three positions pairwise disjoint — the only messages ParseJSON accepts,
+    `jwe_duplicate_names_rejected` — iv/ciphertext/tag/aad/encrypted keys base64url text),
+    `ParseJSON` of bytes that the struct decoder reads as `jweNormal (MarshalJSON m)` returns `m` with
+    protected ↦ `rtHdr p`, shared unprotected ↦ `rtOpt u`, each per-recipient header ↦ `rtOpt h`
+    (`rtOpt none` = the empty header: ParseJSON materialises absent headers). -/
+theorem header_position_roundtrip (o : Oracle) :
+    (∀ m : Msg, MsgWF o m →
+      ∃ kvs, (jwsMarshalJSON m).run o = .ok (.obj kvs) ∧
+        ∀ data, o ⟨"json.decodeMap", [.bytes data]⟩ = .obj kvs →
+          (jwsParseJSON data).run o = .ok { m with sigs := m.sigs.map (rtSig o) }) ∧
+    (∀ m : JweMsg, JweWF o m →
+      ∃ kvs, (jweMarshalJSON m).run o = .ok (.obj kvs) ∧
+        ∀ data, o ⟨"c11.jwe.decodeJSON", [.bytes data]⟩ = jweNormal kvs →
+          (jweParseJSON data).run o = .ok (rtJwe o m)) := by
+  refine ⟨?_, ?_⟩
+  · intro m wf
+    obtain ⟨kvs, h1, h2⟩ := jwsParseObj_marshal o m wf
+    refine ⟨kvs, h1, fun data hd => ?_⟩
+    simp only [jwsParseJSON, PO.run_bind, PO.run_query, hd]
+    exact h2
+  · intro m wf
+    exact jweParse_marshal o m wf
+
+/-- `Sign` keeps a message in the class `header_position_roundtrip` speaks about -/
+theorem sign_keeps_wf (o : Oracle) (m : Msg) (p : Header) (u : Option Header) (wf : MsgWF o m)
+    (hnb : m.nb64 = p.nb64) (wfp : WF o jws.encRows jws.decSteps p)
+    (law : ∀ obj, (encodeWith jws.encRows p).run o = .ok obj → TextLaw o obj)
+    (wfu : ∀ h, u = some h → WF o jws.encRows jws.decSteps h)
+    (hsig : ∀ raw, B64Str o (o ⟨"c11.jws.sign", [.str raw, .str m.payload]⟩).asStr) :
+    ∃ m', (jwsSign m (some p) u).run o = .ok m' ∧ MsgWF o m' ∧ m'.sigs.length = m.sigs.length + 1 := by
+  obtain ⟨raw, obj, h1, _, _⟩ := protected_roundtrip o _ _ jws_fit p wfp law
+  have h1' : (protectedText jwsEncodeHeader p).run o = .ok raw := h1
+  have hne : (m.nb64 != p.nb64) = false := by simp [hnb]
+  refine ⟨Msg.mk m.payload m.nb64 (m.sigs ++ [Sig.mk (some p) raw u (o ⟨"c11.jws.sign", [.str raw, .str m.payload]⟩).asStr]),
+    by simp [jwsSign, hne, h1'], ⟨?_, ?_⟩, by simp⟩
+  · intro s hs
+    simp only [List.mem_append, List.mem_singleton] at hs
+    rcases hs with hs | hs
+    · exact wf.sigs s hs
+    · subst hs
+      exact ⟨⟨p, rfl, hnb.symm, wfp, law, h1'⟩, fun h e => wfu h (by simpa using e), hsig raw⟩
+  · intro h; simp at h
+
+/-- the protected header text alone (what every serialisation, also the compact ones, carries) -/
+theorem protected_text_roundtrip (o : Oracle) :
     (∀ h, WF o jws.encRows jws.decSteps h →
       (∀ obj, (encodeWith jws.encRows h).run o = .ok obj → TextLaw o obj) →
       ∃ raw obj, (protectedText jwsEncodeHeader h).run o = .ok raw ∧
@@ -299,5 +408,96 @@ example (o : Oracle) : ∃ h, (jwsDecodeHeader [("crit", .arr [.str "b64", .str 
 example (o : Oracle) : ∃ h, (jwsDecodeHeader [("crit", .arr [])]).run o = .ok h ∧ h.crit = [] := ⟨_, rfl, rfl⟩
 example (o : Oracle) : ∃ h, (jweDecodeHeader [("crit", .arr [.str "p2c", .str "p2c"])]).run o = .ok h ∧
     h.crit = ["p2c", "p2c"] := ⟨_, rfl, rfl⟩
+
+/-! ## non-vacuity of the placement theorem -/
+
+/-- oracle for two tiny messages: JSON text of two protected headers, base64url of a few strings -/
+def exO2 : Oracle := fun q =>
+  match q.name, q.args with
+  | "json.marshal", [.obj [("alg", .str "HS256")]] => .bytes [123]
+  | "c11.b64url.enc", [.bytes [123]] => .str "ew"
+  | "c11.b64url.dec", [.str "ew"] => .bytes [123]
+  | "json.decodeMap", [.bytes [123]] => .obj [("alg", .str "HS256")]
+  | "json.marshal", [.obj [("alg", .str "dir"), ("enc", .str "A128GCM")]] => .bytes [124]
+  | "c11.b64url.enc", [.bytes [124]] => .str "fA"
+  | "c11.b64url.dec", [.str "fA"] => .bytes [124]
+  | "json.decodeMap", [.bytes [124]] => .obj [("alg", .str "dir"), ("enc", .str "A128GCM")]
+  | "c11.b64url.dec", [.str "c2ln"] => .bytes [1]
+  | "c11.b64url.dec", [.str ""] => .bytes []
+  | _, _ => .none
+
+def exP : Header := { alg := "HS256" }
+def exU : Header := { kid := "k1", raw := [("x-note", .arr [.num "1", .null])] }
+def exEP : Header := { alg := "dir", enc := "A128GCM" }
+def exEU : Header := { kid := "k1" }
+def exER : Header := { typ := "r", raw := [("x-big", .num "123456789012345678901234567890")] }
+
+macro "wf_plain" h:ident : tactic => `(tactic|
+  exact { laws := by intro f; cases f <;> simp [fill, first?, $h:ident, Header.get, ValLaw, maxInt],
+          thumbs := by intro c hc; simp [$h:ident, first?] at hc,
+          rawClean := by decide, crit := by decide,
+          others := by intro f; cases f <;> first | (right; rfl) | (left; decide) })
+
+theorem exP_wf : WF exO2 jws.encRows jws.decSteps exP := by wf_plain exP
+theorem exU_wf : WF exO2 jws.encRows jws.decSteps exU := by wf_plain exU
+theorem exEP_wf : WF exO2 jwe.encRows jwe.decSteps exEP := by wf_plain exEP
+theorem exEU_wf : WF exO2 jwe.encRows jwe.decSteps exEU := by wf_plain exEU
+theorem exER_wf : WF exO2 jwe.encRows jwe.decSteps exER := by wf_plain exER
+
+def exMsg : Msg := Msg.mk "cGF5" false [Sig.mk (some exP) "ew" (some exU) "c2ln", Sig.mk (some exP) "ew" none "c2ln"]
+
+theorem exMsg_wf : MsgWF exO2 exMsg where
+  sigs := by
+    intro s hs
+    have hp : ∃ p, some exP = some p ∧ p.nb64 = false ∧ WF exO2 jws.encRows jws.decSteps p ∧
+        (∀ obj, (encodeWith jws.encRows p).run exO2 = .ok obj → TextLaw exO2 obj) ∧
+        (protectedText jwsEncodeHeader p).run exO2 = .ok "ew" := by
+      refine ⟨exP, rfl, rfl, exP_wf, ?_, rfl⟩
+      intro obj ho
+      have e : (encodeWith jws.encRows exP).run exO2 = .ok [("alg", .str "HS256")] := rfl
+      rw [e] at ho; cases ho
+      exact ⟨[123], "ew", rfl, rfl, rfl, rfl⟩
+    simp only [exMsg, List.mem_cons, List.not_mem_nil, or_false] at hs
+    rcases hs with e | e <;> subst e
+    · exact ⟨hp, fun u hu => (by cases hu; exact exU_wf), ⟨[1], rfl⟩⟩
+    · exact ⟨hp, fun u hu => (by cases hu), ⟨[1], rfl⟩⟩
+  nb64 := by intro h; cases h
+
+def exJweMsg : JweMsg :=
+  { unprotected := some exEU, prot := some exEP, b64protected := "fA", iv := "", ciphertext := "c2ln", tag := "c2ln",
+    recipients := [Recipient.mk (some exER) "", Recipient.mk none "c2ln"] }
+
+theorem exJweMsg_wf : JweWF exO2 exJweMsg where
+  prot := by
+    refine ⟨exEP, rfl, exEP_wf, ?_, rfl, by decide⟩
+    intro obj ho
+    have e : (encodeWith jwe.encRows exEP).run exO2 = .ok [("alg", .str "dir"), ("enc", .str "A128GCM")] := rfl
+    rw [e] at ho; cases ho
+    exact ⟨[124], "fA", rfl, rfl, rfl, rfl⟩
+  unprot := by intro u hu; cases hu; exact exEU_wf
+  unprotCrit := by intro u hu; cases hu; rfl
+  disjU := by rfl
+  rcpts := by
+    intro r hr
+    simp only [exJweMsg, List.mem_cons, List.not_mem_nil, or_false] at hr
+    rcases hr with e | e <;> subst e
+    · exact ⟨fun h hh => (by cases hh; exact exER_wf), fun h hh => (by cases hh; rfl), ⟨[], rfl⟩, by rfl, by rfl⟩
+    · exact ⟨fun h hh => (by cases hh), fun h hh => (by cases hh), ⟨[1], rfl⟩, by rfl, by rfl⟩
+  ct := ⟨[1], rfl⟩
+  iv := ⟨[], rfl⟩
+  tag := ⟨[1], rfl⟩
+  aad := ⟨[], rfl⟩
+
+/-- `header_position_roundtrip` applies to a general-syntax JWS with two signatures (one with, one
+    without an unprotected header) and to a JWE with protected, shared unprotected and two
+    recipients (one with a header carrying a big number, one without) -/
+example : ∃ kvs, (jwsMarshalJSON exMsg).run exO2 = .ok (.obj kvs) ∧
+    ∀ data, exO2 ⟨"json.decodeMap", [.bytes data]⟩ = .obj kvs →
+      (jwsParseJSON data).run exO2 = .ok { exMsg with sigs := exMsg.sigs.map (rtSig exO2) } :=
+  (header_position_roundtrip exO2).1 exMsg exMsg_wf
+example : ∃ kvs, (jweMarshalJSON exJweMsg).run exO2 = .ok (.obj kvs) ∧
+    ∀ data, exO2 ⟨"c11.jwe.decodeJSON", [.bytes data]⟩ = jweNormal kvs →
+      (jweParseJSON data).run exO2 = .ok (rtJwe exO2 exJweMsg) :=
+  (header_position_roundtrip exO2).2 exJweMsg exJweMsg_wf
 
 end C11
